@@ -1,14 +1,20 @@
-(** C15 — correspondence cases: one operation history on an empty ledger with
-    everything the Go implementation returned. *)
+(** C15 — correspondence cases with everything the Go implementation returned:
+    - [Hist]: one operation history of account.DB on an empty ledger (results,
+      read-backs, receipts, final dump);
+    - [Coins]: a list of coins transactions executed by the real coins driver
+      (CheckTx + Exec) on an empty store;
+    - [Multi]: operations through several account.DB instances that share one
+      store (byte-level keys). *)
 From Coq Require Import List ZArith NArith Bool.
-From C33 Require Export Lib.Harness C15.Model C15.Spec.
+From C33 Require Export Lib.Harness C15.Model C15.Spec C15.ModelReceipt C15.ModelCoins
+  C15.ModelFlat C15.SpecExt.
 Import ListNotations.
 Open Scope Z_scope.
 
-(** one executed operation: the call, the result class, and the (balance,
-    frozen) pairs read back through LoadAccount/LoadExecAccount for
-    [touched o], in that order *)
-Definition obs : Type := (op * res * list (Z * Z))%type.
+(** one executed operation: the call, the result class, the (balance, frozen)
+    pairs read back through LoadAccount/LoadExecAccount for [touched o], in
+    that order, and the receipt that was returned (None = nil) *)
+Definition obs : Type := (op * res * list (Z * Z) * option receipt)%type.
 
 (** dump entry: storage key (parsed), stored address spelling, balance, frozen *)
 Definition dent : Type := (key * bytes * (Z * Z))%type.
@@ -16,14 +22,53 @@ Definition dent : Type := (key * bytes * (Z * Z))%type.
 (** monomorphic constructors for the generated case files (they elaborate
     much faster than nested polymorphic pairs) *)
 Inductive rbI := P (b f : Z).
-Inductive obsI := Ob (o : op) (r : res) (rb : list rbI).
+Inductive xoI := XN | XS (x : bytes).
+(* receipt entry in the usual shape: KV i = (k, {a, cb, cf}) and log i =
+   {ty, x, Prev {a, pb, pf}, Current {a, cb, cf}} *)
+Inductive entI := E (ty : Z) (x : xoI) (k : key) (a : bytes) (pb pf cb cf : Z).
+Inductive kvI := KV (k : key) (a : bytes) (b f : Z).
+Inductive logI := LG (ty : Z) (x : xoI) (pa : bytes) (pb pf : Z) (ca : bytes) (cb cf : Z).
+(* RN: nil receipt; RA: the usual shape; RG: anything else, verbatim *)
+Inductive rcI := RN | RA (rty : Z) (es : list entI)
+               | RG (rty : Z) (kvs : list kvI) (logs : list logI).
+Inductive obsI := Ob (o : op) (r : res) (rb : list rbI) (rc : rcI).
 Inductive dentI := DE (k : key) (a : bytes) (b f : Z).
 Definition rb_of (p : rbI) : Z * Z := match p with P b f => (b, f) end.
-Definition obs_of (x : obsI) : obs := match x with Ob o r rb => (o, r, map rb_of rb) end.
+Definition xo_of (x : xoI) : option bytes := match x with XN => None | XS b => Some b end.
+Definition ent_kv (e : entI) : key * acct :=
+  match e with E _ _ k a _ _ cb cf => (k, mkAcct a cb cf) end.
+Definition ent_log (e : entI) : rlog :=
+  match e with E ty x _ a pb pf cb cf => mkLog ty (xo_of x) (mkAcct a pb pf) (mkAcct a cb cf) end.
+Definition kv_of (e : kvI) : key * acct := match e with KV k a b f => (k, mkAcct a b f) end.
+Definition log_of (l : logI) : rlog :=
+  match l with
+  | LG ty x pa pb pf ca cb cf => mkLog ty (xo_of x) (mkAcct pa pb pf) (mkAcct ca cb cf)
+  end.
+Definition rc_of (r : rcI) : option receipt :=
+  match r with
+  | RN => None
+  | RA rty es => Some (mkRcpt rty (map ent_kv es) (map ent_log es))
+  | RG rty kvs logs => Some (mkRcpt rty (map kv_of kvs) (map log_of logs))
+  end.
+Definition obs_of (x : obsI) : obs :=
+  match x with Ob o r rb rc => (o, r, map rb_of rb, rc_of rc) end.
 Definition dent_of (x : dentI) : dent := match x with DE k a b f => (k, a, (b, f)) end.
 
+(** coins transaction with what the driver returned *)
+Inductive txI := T (h : Z) (from to : bytes) (act : cact) (r : cres) (rb : list rbI) (rc : rcI).
+
+(** operation through ledger number [li] of a shared store; [rbs]: read-backs
+    of [touched o] through every ledger *)
+Inductive mobsI := MOb (li : N) (o : op) (r : res) (rbs : list (list rbI)).
+(** raw dump entry of the shared store: the byte key as a list of chunks *)
+Inductive fdentI := FD (k : list bytes) (a : bytes) (b f : Z).
+(** NewAccountDB attempt: execer, symbol, result *)
+Inductive newI := NW (e s : bytes) (r : newres).
+
 Inductive case :=
-| Hist (guarded : bool) (miners : list bytes) (hI : list obsI) (dumpI : list dentI).
+| Hist (guarded : bool) (miners : list bytes) (hI : list obsI) (dumpI : list dentI)
+| Coins (guarded : bool) (env : cenv) (txs : list txI) (dumpI : list dentI)
+| Multi (news : list newI) (miners : list bytes) (hI : list mobsI) (dumpI : list fdentI).
 
 (** ** known-finding signatures (narrow; evaluated on the first divergence only) *)
 
@@ -67,26 +112,42 @@ Definition kf_code (prev : list op) (o : op) (r : res) : N :=
   | _, _ => if exec_spelling_clash prev o then 4%N else 0%N
   end.
 
-(** ** the fold *)
+(** ** receipts *)
+
+Definition log_eqb (a b : rlog) : bool :=
+  (l_ty a =? l_ty b) && option_eqb bytes_eqb (l_exec a) (l_exec b) &&
+  acct_eqb (l_prev a) (l_prev b) && acct_eqb (l_cur a) (l_cur b).
+
+Definition kv_eqb (a b : key * acct) : bool := key_eqb (fst a) (fst b) && acct_eqb (snd a) (snd b).
+
+Definition receipt_eqb (a b : receipt) : bool :=
+  (r_ty a =? r_ty b) && list_eqb kv_eqb (r_kv a) (r_kv b) && list_eqb log_eqb (r_logs a) (r_logs b).
+
+Definition is_ok (r : res) : bool := match r with ROk => true | _ => false end.
+
+(** ** the fold over one account.DB history *)
 
 Definition rb_eqb (a b : list (Z * Z)) : bool := list_eqb pair_eqb a b.
 
 (* state of the fold: model ledger, all model outputs agreed so far, spec view,
-   first spec divergence (None = none yet), operations so far (reversed) *)
+   ledger according to the receipts, first spec divergence (None = none yet),
+   operations so far (reversed) *)
 Record fstate := mkF {
-  f_s : ledger; f_m : bool; f_v : view; f_div : option N; f_prev : list op }.
+  f_s : ledger; f_m : bool; f_v : view; f_rv : ledger; f_div : option N; f_prev : list op }.
 
 Definition fold_obs (miners : list bytes) (st : fstate) (ob : obs) : fstate :=
-  let '(o, r, rb) := ob in
-  let (s', mr) := step miners (f_s st) o in
-  let m_ok := res_eqb mr r && rb_eqb (map (answer s') (touched o)) rb in
+  let '(o, r, rb, rc) := ob in
+  let '(s', mr, mrc) := step_r miners (f_s st) o in
+  let m_ok := res_eqb mr r && rb_eqb (map (answer s') (touched o)) rb
+              && option_eqb receipt_eqb mrc rc in
   let (v', s_ok) := obs_step (f_v st) o r rb in
+  let (rv', rc_ok) := rcpt_step (f_rv st) (is_ok r) rc in
   let div :=
     match f_div st with
     | Some c => Some c
-    | None => if s_ok then None else Some (kf_code (f_prev st) o r)
+    | None => if s_ok && rc_ok then None else Some (kf_code (f_prev st) o r)
     end in
-  mkF s' (f_m st && m_ok) v' div (o :: f_prev st).
+  mkF s' (f_m st && m_ok) v' rv' div (o :: f_prev st).
 
 Definition dent_eqb (s : ledger) (e : dent) : bool :=
   let '(k, a, p) := e in
@@ -98,19 +159,112 @@ Definition dent_eqb (s : ledger) (e : dent) : bool :=
 Definition dump_agrees (s : ledger) (dump : list dent) : bool :=
   Nat.eqb (length s) (length dump) && forallb (dent_eqb s) dump.
 
+Definition dent_kv (e : dent) : key * acct :=
+  let '(k, a, p) := e in (k, mkAcct a (fst p) (snd p)).
+
+Definition check_hist (guarded : bool) (miners : list bytes) (h : list obs) (dump : list dent)
+  : verdict :=
+  let ops := map (fun ob => fst (fst (fst ob))) h in
+  let st := fold_left (fold_obs miners) h (mkF [] true [] [] None []) in
+  let m := f_m st && dump_agrees (f_s st) dump
+           && (if guarded then hist_guard [] ops && spellings_consistent [] ops else true) in
+  match f_div st with
+  | Some c => (m, false, if guarded then 0%N else c)
+  | None =>
+      let fin := final_ok (f_v st) (map (fun e => (fst (fst e), snd e)) dump)
+                 && rv_final (f_rv st) (map dent_kv dump) in
+      (m, fin, 0%N)
+  end.
+
+(** ** coins transactions *)
+
+Record cstate := mkC { c_s : ledger; c_m : bool; c_v : view; c_rv : ledger; c_ok : bool }.
+
+Definition tx_of (x : txI) : ctx := match x with T h f t a _ _ _ => mkTx h f t a end.
+
+Definition is_cok (r : cres) : bool := match r with COk => true | _ => false end.
+
+Definition fold_tx (env : cenv) (st : cstate) (x : txI) : cstate :=
+  match x with
+  | T h f t a r rbI rcI =>
+      let tx := mkTx h f t a in
+      let rb := map rb_of rbI in
+      let rc := rc_of rcI in
+      let '(s', mr, mrc) := coins_tx env (c_s st) tx in
+      let m_ok := cres_eqb mr r && rb_eqb (map (answer s') (tx_touched env tx)) rb
+                  && option_eqb receipt_eqb mrc rc in
+      let (v', s_ok) := coins_obs_step env (c_v st) tx r rb in
+      let (rv', rc_ok) := rcpt_step (c_rv st) (is_cok r) rc in
+      mkC s' (c_m st && m_ok) v' rv' (c_ok st && s_ok && rc_ok)
+  end.
+
+Definition check_coins (guarded : bool) (env : cenv) (txs : list txI) (dump : list dent)
+  : verdict :=
+  let st := fold_left (fold_tx env) txs (mkC [] true [] [] true) in
+  let m := c_m st && dump_agrees (c_s st) dump
+           && (if guarded then coins_guard env [] (map tx_of txs) else true) in
+  let fin := final_ok (c_v st) (map (fun e => (fst (fst e), snd e)) dump)
+             && rv_final (c_rv st) (map dent_kv dump) in
+  mk_verdict m (c_ok st && fin).
+
+(** ** several ledgers on one store *)
+
+Definition new_of (x : newI) : lid * newres := match x with NW e s r => ((e, s), r) end.
+
+Record mstate := mkM { m_w : flat; m_m : bool; m_vs : list view; m_ok : bool }.
+
+Definition fold_mobs (lids : list lid) (miners : list bytes) (st : mstate) (x : mobsI) : mstate :=
+  match x with
+  | MOb li o r rbsI =>
+      let i := N.to_nat li in
+      let rbs := map (map rb_of) rbsI in
+      let l := nth i lids ([], []) in
+      let (w', mr) := fstep l miners (m_w st) o in
+      let m_ok' := res_eqb mr r &&
+                   list_eqb rb_eqb (map (fun l' => map (fanswer l' w') (touched o)) lids) rbs in
+      let (vs', s_ok) := multi_obs_step (m_vs st) i o r rbs in
+      mkM w' (m_m st && m_ok') vs' (m_ok st && s_ok)
+  end.
+
+Definition fdent_key (e : fdentI) : bytes := match e with FD k _ _ _ => concat k end.
+
+Definition fdent_eqb (w : flat) (e : fdentI) : bool :=
+  match e with
+  | FD k a b f =>
+      match fget (concat k) w with
+      | Some r => acct_eqb r (mkAcct a b f)
+      | None => false
+      end
+  end.
+
+(* operations of ledger [i] in order, for the guard of the ledger theorems *)
+Definition ops_of_ledger (i : nat) (h : list mobsI) : list op :=
+  flat_map (fun x => match x with MOb li o _ _ => if Nat.eqb (N.to_nat li) i then [o] else [] end) h.
+
+Definition check_multi (news : list newI) (miners : list bytes) (h : list mobsI)
+  (dump : list fdentI) : verdict :=
+  let tried := map new_of news in
+  (* the ledgers in use: the attempts that were accepted, in order *)
+  let lids := map fst (filter (fun p => match snd p with NOk => true | _ => false end) tried) in
+  let new_agree :=
+    forallb (fun p => match new_account_db (fst p), snd p with
+                      | NOk, NOk | NExecName, NExecName | NSymbol, NSymbol => true
+                      | _, _ => false
+                      end) tried in
+  let st := fold_left (fold_mobs lids miners) h (mkM [] true (map (fun _ => []) lids) true) in
+  let guards :=
+    forallb (fun i => let ops := ops_of_ledger i h in
+                      hist_guard [] ops && spellings_consistent [] ops)
+            (seq 0 (length lids)) in
+  let m := m_m st && new_agree && guards &&
+           Nat.eqb (length (m_w st)) (length dump) && forallb (fdent_eqb (m_w st)) dump in
+  (* spec: accepted names have no '-', the key spaces partition the store *)
+  let fin := forallb lid_ok lids && keys_partitioned lids (map fdent_key dump) in
+  mk_verdict m (m_ok st && fin).
+
 Definition check_case (c : case) : verdict :=
   match c with
-  | Hist guarded miners hI dumpI =>
-      let h := map obs_of hI in
-      let dump := map dent_of dumpI in
-      let ops := map (fun ob => fst (fst ob)) h in
-      let st := fold_left (fold_obs miners) h (mkF [] true [] None []) in
-      let m := f_m st && dump_agrees (f_s st) dump
-               && (if guarded then hist_guard [] ops && spellings_consistent [] ops else true) in
-      match f_div st with
-      | Some c => (m, false, if guarded then 0%N else c)
-      | None =>
-          let fin := final_ok (f_v st) (map (fun e => (fst (fst e), snd e)) dump) in
-          (m, fin, 0%N)
-      end
+  | Hist guarded miners hI dumpI => check_hist guarded miners (map obs_of hI) (map dent_of dumpI)
+  | Coins guarded env txs dumpI => check_coins guarded env txs (map dent_of dumpI)
+  | Multi news miners hI dumpI => check_multi news miners hI dumpI
   end.
